@@ -41,8 +41,10 @@ PREPS = {
 }
 NONGAUSS = {"Kgate": (1, ["r"]), "Vgate": (1, ["r"]), "CKgate": (2, ["r"])}
 FOCK_PREPS = {"Fock": (1, ["k"])}
+# deterministic (post-selected) measurements: MeasureHomodyne(phi, select=value), MeasureHeterodyne(select=re + i im)
+MEASURE_SEL = {"MeasureHomodyneSel": (1, ["a", "r"]), "MeasureHeterodyneSel": (1, ["r", "r"])}
 ALL = {}
-for _d in (GAUSSIAN_GATES, CHANNELS, PREPS, NONGAUSS, FOCK_PREPS):
+for _d in (GAUSSIAN_GATES, CHANNELS, PREPS, NONGAUSS, FOCK_PREPS, MEASURE_SEL):
     ALL.update(_d)
 
 
@@ -108,6 +110,13 @@ def _param(p):
 
 
 def make_op(name, params, dagger=False):
+    if name == "MeasureHomodyneSel":
+        return ops.MeasureHomodyne(params[0], select=params[1])
+    if name == "MeasureHeterodyneSel":
+        return ops.MeasureHeterodyne(select=complex(params[0], params[1]))
+    if name == "GaussianNoDecomp":
+        # params = [V (nested list, xxpp order over the listed modes, hbar = 2), r (list)]
+        return ops.Gaussian(np.array(params[0], dtype=float), np.array(params[1], dtype=float), decomp=False)
     op = getattr(ops, name)(*[_param(p) for p in params])
     if dagger:
         op = op.H
